@@ -16,9 +16,8 @@ Definition is_name_char (c : N) : bool :=
 Definition is_ent_char (c : N) : bool := is_alnum c || (c =? 35).   (* # *)
 
 (** elements whose content is raw text up to the matching end tag ([noscript]: scripting
-    enabled, as in browsers; [textarea] is RCDATA in HTML — character references inside it are
-    not decoded here, see ASSUMPTIONS) *)
-Definition parser_raw : list bytes := Eval vm_compute in map bs ["script"; "style"; "textarea"; "noscript"]%string.
+    enabled, as in browsers) *)
+Definition parser_raw : list bytes := Eval vm_compute in map bs ["script"; "style"; "noscript"]%string.
 
 Definition n_amp : bytes := Eval vm_compute in bs "amp".
 Definition n_lt : bytes := Eval vm_compute in bs "lt".
@@ -28,7 +27,7 @@ Definition n_apos : bytes := Eval vm_compute in bs "apos".
 Definition n_39 : bytes := Eval vm_compute in bs "#39".
 Definition n_x27 : bytes := Eval vm_compute in bs "#x27".
 (** escapable raw text (RCDATA): no tags and no comments inside, but character references *)
-Definition parser_rcdata : list bytes := Eval vm_compute in map bs ["title"]%string.
+Definition parser_rcdata : list bytes := Eval vm_compute in map bs ["title"; "textarea"]%string.
 
 Definition decode_ent (acc : bytes) : bytes :=
   if beq acc n_amp then [38]
